@@ -44,7 +44,8 @@ def gen_cases(rng, n):
         hg = G.HistGen(rng, cfg, notation=rng.choice([0, 0.15, 0.4]), wrong=rng.choice([0, 0, 0.01]),
                        wild=rng.choice([0, 0.03, 0.1]))
         claims, calls, _ = hg.module_history(rng.randrange(0, 4), rng.choice([0, 1, 2, 2, 3, 4]), rng.choice([0.1, 0.3, 0.5]),
-                                             permute=rng.choice([0, 0, 0.5, 1.0]), repeat_ax=rng.choice([0, 0.3, 0.6]))
+                                             permute=rng.choice([0, 0, 0.5, 1.0]), repeat_ax=rng.choice([0, 0.3, 0.6]),
+                                             bad_inst=rng.choice([0, 0, 0.1, 0.3]))
         cases.append(dict(claims=claims, calls=calls))
     return cases
 
@@ -207,6 +208,18 @@ def run(tier, seed):
             else:
                 gs, gm, gc = got.group(1), got.group(2), got.group(3)
                 sig = None
+                if name in ('in', 'ip') and stack:
+                    # the rule as requested by the caller: conclusion.instantiate(delta) (harness-side port)
+                    fx = c['x'].split()[k].split(':')
+                    dl = {int(fx[i]): G.dec(fx[i + 1]) for i in range(2, len(fx), 2)}
+                    want_top = ('T' if name == 'in' else 'P') + G.show(G.py_inst(G.dec(fx[1]), dl))
+                    if stack[0] != want_top:
+                        sig = f'tracker-term-is-not-the-requested-instance:{name}'
+                        oracle_fail.append((sig, 'the term the tracker holds after instantiate is not pattern.instantiate(delta)',
+                                            dict(history=lines[ci], call_index=k, call=c['calls'][k], expanded_call=c['x'].split()[k],
+                                                 tracker=a['tracker'], requested_instance=want_top, checker=ro)))
+                        n_div[sig] = n_div.get(sig, 0) + 1
+                        sig = None
                 if gm != want_mem:
                     sig = signed('memory-differs')
                 elif want_claims is not None and gc != want_claims:
